@@ -14,6 +14,7 @@ import (
 	"fmt"
 	"io"
 	"net"
+	"runtime"
 	"sync"
 	"testing"
 	"time"
@@ -32,8 +33,21 @@ import (
 	"github.com/temporalio/s2s-proxy/vfshared"
 )
 
+// vfOutsideCh feeds a goroutine that lives outside every synctest bubble (started at package initialisation) and runs in
+// real time: the only way to end a window during which a goroutine of the proxy legitimately spins without blocking
+// (virtual time cannot pass such a window, so it cannot be closed from inside the bubble).
+var vfOutsideCh = make(chan func(), 64)
+
+func init() {
+	go func() {
+		for f := range vfOutsideCh {
+			f()
+		}
+	}()
+}
+
 type c08rOp struct {
-	K string `json:"k"` // remoteOff | remoteOn | reconcile | chanOn | chanOff | peerSend | peerEnd | advance
+	K string `json:"k"` // remoteOff | remoteOn | reconcile | chanOn | chanOff | chanClose | peerSend | peerEnd | advance
 	N int    `json:"n,omitempty"`
 }
 
@@ -183,7 +197,12 @@ func c08rRun(t *testing.T, c c08rCase) (viol string, classes map[string]bool) {
 		var got []int64 // exclusive high watermarks that reached the local target stream
 		var gotMu sync.Mutex
 		var drainStop chan struct{}
+		localClosed := false // the local target's sender has closed its channel but not deregistered it yet
+		var chanOff func()
 		chanOn := func() {
+			if localCh != nil && localClosed {
+				chanOff() // the successor follows the dying sender's deregistration
+			}
 			if localCh != nil {
 				return
 			}
@@ -203,13 +222,53 @@ func c08rRun(t *testing.T, c c08rCase) (viol string, classes map[string]bool) {
 				}
 			}(localCh, drainStop)
 		}
-		chanOff := func() {
+		chanOff = func() {
 			if localCh == nil {
 				return
 			}
 			sm.RemoveRemoteSendChan(local, localCh)
+			if !localClosed {
+				close(drainStop)
+			}
+			localCh, localClosed = nil, false
+		}
+		// chanClose: the local target stream's sender is shutting down - it has closed its delivery channel and will
+		// deregister it a moment later (proxyStreamSender.Run: close(sendMsgChan) ... RemoveRemoteSendChan)
+		chanClose := func() {
+			if localCh == nil || localClosed {
+				return
+			}
 			close(drainStop)
-			localCh = nil
+			vfQuiesce()
+			close(localCh)
+			localClosed = true
+			classes["local_target_sender_closed_its_channel_but_is_still_registered"] = true
+			// ... and deregisters it a moment later - of real time: a receiver that meets the closed channel meanwhile
+			// retries without ever blocking, which virtual time cannot pass, so the window cannot be closed from inside
+			ch := localCh
+			vfOutsideCh <- func() {
+				time.Sleep(30 * time.Millisecond)
+				// what RemoveRemoteSendChan does, minus its log statement (the logger holds timers that belong to the
+				// bubble and must not be touched from outside)
+				sm.remoteSendChannelsMu.Lock()
+				if cur, ok := sm.remoteSendChannels[local]; ok && cur == ch {
+					delete(sm.remoteSendChannels, local)
+				}
+				sm.remoteSendChannelsMu.Unlock()
+			}
+		}
+		// windowEnd waits (in real time) until the dying sender has deregistered its closed channel
+		windowEnd := func() {
+			if !localClosed {
+				return
+			}
+			for {
+				if cur, ok := sm.GetRemoteSendChan(local); !ok || cur != localCh {
+					break
+				}
+				runtime.Gosched()
+			}
+			localCh, localClosed = nil, false
 		}
 		settle := func(d time.Duration) {
 			vfQuiesce()
@@ -219,6 +278,9 @@ func c08rRun(t *testing.T, c c08rCase) (viol string, classes map[string]bool) {
 		remoteOn := false
 		nextWM := int64(100)
 		for _, o := range c.Ops {
+			if o.K != "peerSend" {
+				windowEnd()
+			}
 			switch o.K {
 			case "remoteOff":
 				remoteOn = false
@@ -237,6 +299,8 @@ func c08rRun(t *testing.T, c c08rCase) (viol string, classes map[string]bool) {
 				chanOn()
 			case "chanOff":
 				chanOff()
+			case "chanClose":
+				chanClose()
 			case "peerSend":
 				if l := peer.live(); len(l) > 0 {
 					nextWM++
@@ -244,6 +308,11 @@ func c08rRun(t *testing.T, c c08rCase) (viol string, classes map[string]bool) {
 					select {
 					case s.send <- &adminservice.StreamWorkflowReplicationMessagesResponse{Attributes: &adminservice.StreamWorkflowReplicationMessagesResponse_Messages{Messages: &replicationv1.WorkflowReplicationMessages{ExclusiveHighWatermark: nextWM}}}:
 					default:
+					}
+					if localClosed {
+						// sent within the window: the message is likely to meet the closed, still registered channel
+						windowEnd()
+						classes["message_sent_while_the_closed_channel_was_still_registered"] = true
 					}
 					vfQuiesce()
 					if localCh == nil {
@@ -262,6 +331,7 @@ func c08rRun(t *testing.T, c c08rCase) (viol string, classes map[string]bool) {
 		}
 		// ---- final claim: the pair is wanted, the local target stream is there; after reconciliation has run a few times
 		// exactly one stream exists, it is the registered one, and both directions work over it
+		windowEnd()
 		setRemote(true)
 		chanOn()
 		for i := 0; i < 4; i++ {
@@ -353,7 +423,7 @@ func c08rRun(t *testing.T, c c08rCase) (viol string, classes map[string]bool) {
 	return viol, classes
 }
 
-const c08rRule = "intra-proxy receiver side: the real intraProxyManager reconciles its client-side stream to a peer proxy (real gRPC over in-memory pipes, fake peer server) while the peer's shard comes and goes, the local target stream is present or absent (a forwarded message then waits inside the receiver), the peer sends or ends the stream, and virtual time advances or not between the steps; oracle after reconciliation settled: exactly one live stream, it is the registered receiver and the active receiver, a routed acknowledgement arrives on it exactly once and a forwarded message reaches the local target stream exactly once; after the pair is no longer wanted nothing remains registered, open or running; non-trivial = a stream was re-established after a forwarded message had to wait for the local target stream"
+const c08rRule = "intra-proxy receiver side: the real intraProxyManager reconciles its client-side stream to a peer proxy (real gRPC over in-memory pipes, fake peer server) while the peer's shard comes and goes, the local target stream is present, absent (a forwarded message then waits inside the receiver) or shutting down (its delivery channel closed but still registered for a moment of real time: the receiver retries without blocking until it is deregistered), the peer sends or ends the stream, and virtual time advances or not between the steps; oracle after reconciliation settled: exactly one live stream, it is the registered receiver and the active receiver, a routed acknowledgement arrives on it exactly once and a forwarded message reaches the local target stream exactly once; after the pair is no longer wanted nothing remains registered, open or running; non-trivial = a stream was re-established after a forwarded message had to wait for the local target stream"
 
 func TestVF_C08_IntraProxyReceiver(t *testing.T) {
 	const part = "intraproxyrecv"
@@ -363,7 +433,9 @@ func TestVF_C08_IntraProxyReceiver(t *testing.T) {
 	st := vfshared.NewStats("C08", part, c08rRule)
 	defer st.Flush()
 	run := func(tt interface{ Fatalf(string, ...any) }, c c08rCase) {
+		stop := vfLockWatchdog(st, "C08", part, c, 60*time.Second)
 		v, cl := c08rRun(t, c)
+		stop()
 		if v != "" {
 			if len(v) > 8 && v[:8] == "HARNESS:" {
 				tt.Fatalf("%s", v)
@@ -398,7 +470,7 @@ func TestVF_C08_IntraProxyReceiver(t *testing.T) {
 		}
 		n := rapid.IntRange(2, 14).Draw(rt, "n")
 		for i := 0; i < n; i++ {
-			k := rapid.SampledFrom([]string{"remoteOn", "remoteOn", "remoteOff", "remoteOff", "reconcile", "reconcile", "reconcile", "reconcile", "chanOn", "chanOff", "peerSend", "peerSend", "peerSend", "peerEnd", "advance", "advance"}).Draw(rt, "k")
+			k := rapid.SampledFrom([]string{"remoteOn", "remoteOn", "remoteOff", "remoteOff", "reconcile", "reconcile", "reconcile", "reconcile", "chanOn", "chanOff", "chanClose", "peerSend", "peerSend", "peerSend", "peerEnd", "advance", "advance"}).Draw(rt, "k")
 			o := c08rOp{K: k}
 			if k == "advance" {
 				o.N = rapid.SampledFrom([]int{1, 50, 50, 1500, 5000}).Draw(rt, "ms")
